@@ -1057,9 +1057,31 @@ fn corrupt_text(ctx: &mut Ctx, text: &str, other: &str) -> (Vec<u8>, String) {
                         0 => f[1] = if f[1] == "w" { "b".into() } else { "w".into() },
                         1 => f[2] = ctx.tape.pick(&["KQkq", "K", "Q", "k", "q", "Kk", "Qq", "KQ", "kq", "-", "qkQK", "KK"]).to_string(),
                         _ => {
-                            let file = (b'a' + ctx.tape.choose(8) as u8) as char;
-                            let rank = *ctx.tape.pick(&['3', '6', '6', '3', '4', '5']);
-                            f[3] = format!("{file}{rank}");
+                            // a marker on any file and a plausible rank - or, half of the time,
+                            // directly behind or ahead of a pawn that stands on its fourth or
+                            // fifth rank, whichever colour it has and whoever is to move
+                            let mut near_pawn: Vec<String> = Vec::new();
+                            for (ri, row) in f[0].split('/').enumerate() {
+                                let mut file = 0u8;
+                                for ch in row.bytes() {
+                                    if ch.is_ascii_digit() {
+                                        file += ch - b'0';
+                                    } else {
+                                        if (ch == b'p' || ch == b'P') && (ri == 3 || ri == 4) && file < 8 {
+                                            let fc = (b'a' + file) as char;
+                                            near_pawn.push(format!("{fc}{}", if ri == 3 { '6' } else { '3' }));
+                                        }
+                                        file += 1;
+                                    }
+                                }
+                            }
+                            if !near_pawn.is_empty() && ctx.tape.choose(2) == 1 {
+                                f[3] = ctx.tape.pick(&near_pawn).clone();
+                            } else {
+                                let file = (b'a' + ctx.tape.choose(8) as u8) as char;
+                                let rank = *ctx.tape.pick(&['3', '6', '6', '3', '4', '5']);
+                                f[3] = format!("{file}{rank}");
+                            }
                         }
                     }
                     b = f.join(" ").into_bytes();
@@ -1659,7 +1681,19 @@ fn one_ply(ctx: &mut Ctx, st: &mut LoopState, ply: u32) -> Step<Flow> {
             if ls.is_empty() {
                 return Ok(Flow::Break);
             }
-            let m = *ctx.tape.pick(&ls);
+            // where an en-passant marker is set, a move onto the marked square is preferred: it
+            // is the move that acts on whatever the (possibly meaningless) marker stands for
+            let text = op(Op::Print, || st.s.board.to_string());
+            let target: Option<u8> = text.split(' ').nth(3).and_then(|f| {
+                let b = f.as_bytes();
+                if b.len() == 2 && (b'a'..=b'h').contains(&b[0]) && (b'1'..=b'8').contains(&b[1]) {
+                    Some((b[1] - b'1') * 8 + (b[0] - b'a'))
+                } else {
+                    None
+                }
+            });
+            let onto: Vec<Mv> = ls.iter().copied().filter(|m| Some(m.to) == target).collect();
+            let m = if !onto.is_empty() && ctx.tape.choose(2) == 1 { *ctx.tape.pick(&onto) } else { *ctx.tape.pick(&ls) };
             let which = ctx.tape.choose(3);
             match apply_checked(&st.s.board, m, which) {
                 Some(nb) => st.s.board = nb,
